@@ -1,0 +1,17 @@
+//go:build verif
+
+// Contracts for the verification machinery in /verif (comment-only, built only with -tags verif).
+
+package allocator
+
+//@ pred Buggy(ip net.IP) := net.is4(ip) && (net.v4byte(ip, 3) == 0 || net.v4byte(ip, 3) == 255)
+
+//@ func ipConfusesBuggyFirmwares
+//@   pure
+//@   ensures result == Buggy(ip)
+
+//@ pred KeyCompat(e key, n key) := e.sharing != "" && n.sharing != "" && e.sharing == n.sharing && e.backend == n.backend
+
+//@ func sharingOK
+//@   requires existing != nil && new != nil
+//@   ensures (result == nil) == KeyCompat(*existing, *new)
